@@ -295,6 +295,16 @@ def header_exprs(node: Node) -> List[ast.AST]:
     return []
 
 
+def _bound_alias(ctx: Ctx, fi: FuncInfo, call: ast.Call):
+    """`advance = tokens.next` ... `advance()`: (method name, receiver source) when the callee is a local name bound once to a method of the token iterator"""
+    if not isinstance(call.func, ast.Name):
+        return None
+    vals = ctx.cg.local_assigns(fi).get(call.func.id, [])
+    if len(vals) == 1 and isinstance(vals[0], ast.Attribute) and vals[0].attr in ('next', 'peek', 'expect', 'accept', '__next__') and _is_tokit(ctx, vals[0].value, fi):
+        return vals[0].attr, norm(vals[0].value)
+    return None
+
+
 def token_ops(ctx: Ctx, fi: FuncInfo, node: Node) -> List[Tuple[str, ast.Call, str]]:
     """Token-stream operations evaluated at this CFG node: (op, call, receiver source), op in
     next/peek/expect/accept/bool/pass (iterator passed to a callee)."""
@@ -307,6 +317,9 @@ def token_ops(ctx: Ctx, fi: FuncInfo, node: Node) -> List[Tuple[str, ast.Call, s
                 if isinstance(n.func, ast.Attribute) and n.func.attr in ('next', 'peek', 'expect', 'accept', '__next__') \
                         and _is_tokit(ctx, n.func.value, fi):
                     ops.append((n.func.attr, n, norm(n.func.value)))
+                elif _bound_alias(ctx, fi, n):
+                    ba = _bound_alias(ctx, fi, n)
+                    ops.append((ba[0], n, ba[1]))
                 else:
                     for a in list(n.args) + [k.value for k in n.keywords]:
                         if isinstance(a, ast.Name) and _is_tokit(ctx, a, fi):
@@ -329,6 +342,7 @@ def r16(ctx: Ctx) -> RuleReport:
             continue
         calls = [n for n in walk_local(fi.node) if isinstance(n, ast.Call) and isinstance(n.func, ast.Attribute)
                  and n.func.attr == 'next' and _is_tokit(ctx, n.func.value, fi)]
+        calls += [n for n in walk_local(fi.node) if isinstance(n, ast.Call) and (_bound_alias(ctx, fi, n) or ('', ''))[0] == 'next']
         # accept(<types>) looks at the lookahead itself and answers None at the end of input (R43 reads TokenIterator.accept): a token taken that way needs no peek
         for n in walk_local(fi.node):
             if isinstance(n, ast.Call) and isinstance(n.func, ast.Attribute) and n.func.attr == 'accept' and _is_tokit(ctx, n.func.value, fi):
@@ -368,7 +382,7 @@ def r16(ctx: Ctx) -> RuleReport:
             while id(n) not in cfg.expr_cond and not isinstance(n, ast.stmt):
                 n = pm[id(n)]
             nid = cfg.expr_cond.get(id(n)) if id(n) in cfg.expr_cond else cfg.node_of(n)
-            recv = norm(call.func.value)
+            recv = norm(call.func.value) if isinstance(call.func, ast.Attribute) else _bound_alias(ctx, fi, call)[1]
             facts = IN.get(nid, frozenset())
             ops_here = token_ops(ctx, fi, cfg.nodes[nid])
             consuming_before = [o for o in ops_here if o[0] in ('next', 'expect', 'accept', 'pass') and o[1] is not call
